@@ -301,3 +301,250 @@ class ExactFFT:
                         acc = acc + 2 * term
                 o_m[(r,) + idx] = acc / float(N)
         return symarray(out)
+
+
+# ----------------------------------------------------------------------------------------------------------------
+# h5py stub: an in-memory tree.  Contract (h5py / HDF5 documentation): an attribute or dataset written and read back
+# returns the same values *after casting to the dataset's / attribute's dtype* (integer dtypes truncate, bool
+# datasets store truth values, float and complex are the identity); python strings come back as str from attributes and
+# as bytes from datasets; sequences of strings come back as arrays of str (attributes) / bytes (datasets); scalars come
+# back as numpy scalars; None (object dtype) cannot be stored.
+class H5Error(TypeError):
+    pass
+
+
+def _h5_cast_elem(x, kind):
+    from .scalars import Sym, SymBool, _py
+
+    x = _py(x)
+    if kind == "i":
+        if isinstance(x, Sym):
+            return x.__trunc__()
+        return int(x)
+    if kind == "b":
+        if isinstance(x, Sym):
+            return x if isinstance(x, SymBool) else (x != 0)
+        return bool(x)
+    if kind == "f":
+        if isinstance(x, (Sym,)):
+            return x
+        if isinstance(x, complex):
+            raise H5Error("cannot store complex values in a float dataset")
+        return float(x)
+    return x  # complex / object
+
+
+def _h5_kind(dtype, data=None):
+    if dtype is not None:
+        try:
+            k = np.dtype(dtype).kind
+        except TypeError:
+            k = "O"
+        return {"u": "i"}.get(k, k)
+    arr = np.asarray(data) if not isinstance(data, np.ndarray) else data
+    if arr.dtype != object:
+        return {"u": "i", "U": "S"}.get(arr.dtype.kind, arr.dtype.kind)
+    from .scalars import SymBool, SymComplex, SymInt, _py
+
+    kinds = set()
+    for e in arr.flat:
+        e = _py(e)
+        if isinstance(e, (bool, np.bool_, SymBool)):
+            kinds.add("b")
+        elif isinstance(e, (int, np.integer, SymInt)):
+            kinds.add("i")
+        elif isinstance(e, (complex, SymComplex)):
+            kinds.add("c")
+        elif isinstance(e, (str, bytes)):
+            kinds.add("S")
+        elif e is None:
+            raise H5Error("Object dtype dtype('O') has no native HDF5 equivalent")
+        else:
+            kinds.add("f")
+    for k in ("S", "c", "f", "i", "b"):
+        if k in kinds:
+            return k
+    return "f"
+
+
+class H5Dataset:
+    def __init__(self, shape, kind, np_dtype=None):
+        self.shape = tuple(int(s) for s in shape)
+        self.kind = kind
+        self._np_dtype = np_dtype
+        fill = {"i": 0, "f": 0.0, "c": 0j, "b": False, "S": b""}.get(kind, 0.0)
+        self._data = np.empty(self.shape, dtype=object)
+        for idx in np.ndindex(*self.shape):
+            self._data[idx] = fill
+
+    @property
+    def dtype(self):
+        if self._np_dtype is not None:
+            return np.dtype(self._np_dtype)
+        return np.dtype({"i": np.int64, "f": np.float64, "c": np.complex128, "b": np.bool_, "S": object}[self.kind])
+
+    @property
+    def ndim(self):
+        return len(self.shape)
+
+    def __len__(self):
+        return self.shape[0]
+
+    def _cast(self, value):
+        from .sarray import plain, symify
+
+        v = np.asarray(plain(symify(value)) if not isinstance(value, (str, bytes)) else value, dtype=object)
+        out = np.empty(v.shape, dtype=object)
+        for idx in np.ndindex(*v.shape):
+            e = v[idx]
+            if self.kind == "S":
+                out[idx] = e.encode("utf-8") if isinstance(e, str) else e
+            else:
+                out[idx] = _h5_cast_elem(e, self.kind)
+        return out
+
+    def __setitem__(self, key, value):
+        self._data[key] = self._cast(value)
+
+    def _out(self, a):
+        from .sarray import has_sym, symarray
+
+        if isinstance(a, np.ndarray):
+            if has_sym(a):
+                return symarray(a)
+            if self.kind == "S":
+                return a
+            return np.array(a.tolist(), dtype=self.dtype).reshape(a.shape)
+        return a
+
+    def __getitem__(self, key):
+        return self._out(self._data[key])
+
+    def __iter__(self):
+        for i in range(self.shape[0]):
+            yield self._out(self._data[i])
+
+    def __array__(self, dtype=None, copy=None):
+        from .sarray import has_sym
+
+        if has_sym(self._data) or self.kind == "S":
+            return np.array(self._data, dtype=object)
+        return np.array(self._data.tolist(), dtype=self.dtype).reshape(self.shape)
+
+
+class H5Attrs(dict):
+    def __setitem__(self, key, value):
+        from .scalars import Sym
+        from .sarray import SymArray, has_sym, symarray
+
+        if value is None:
+            raise H5Error("Object dtype dtype('O') has no native HDF5 equivalent")
+        if isinstance(value, (str, Sym)):
+            v = value
+        elif isinstance(value, bool):
+            v = np.bool_(value)
+        elif isinstance(value, int):
+            v = np.int64(value)
+        elif isinstance(value, float):
+            v = np.float64(value)
+        elif isinstance(value, (list, tuple, np.ndarray)):
+            if len(value) and all(isinstance(e, str) for e in value):
+                v = np.array(list(value), dtype=object)
+            elif has_sym(value) or isinstance(value, SymArray):
+                v = symarray(value).copy()
+            else:
+                arr = np.array(value)
+                if arr.dtype == object:
+                    raise H5Error("Object dtype dtype('O') has no native HDF5 equivalent")
+                v = arr
+        else:
+            v = value
+        dict.__setitem__(self, key, v)
+
+
+class H5Group:
+    def __init__(self):
+        self.attrs = H5Attrs()
+        self._items = {}
+
+    def create_group(self, name):
+        g = H5Group()
+        self._items[name] = g
+        return g
+
+    def create_dataset(self, name, shape=None, dtype=None, data=None):
+        if data is not None:
+            from .sarray import plain, symify
+
+            if isinstance(data, H5Dataset):
+                data = data.__array__()
+            arr = np.asarray(plain(symify(data)) if not (isinstance(data, list) and data and isinstance(data[0], (str, bytes))) else data, dtype=object)
+            kind = _h5_kind(dtype, arr)
+            ds = H5Dataset(arr.shape if shape is None else shape, kind, np_dtype=dtype if kind != "S" else None)
+            ds[...] = arr
+        else:
+            if shape is None:
+                raise TypeError("One of data, shape or dtype must be specified")
+            kind = _h5_kind(dtype if dtype is not None else np.float32)
+            ds = H5Dataset(shape if isinstance(shape, (tuple, list)) else (shape,), kind, np_dtype=dtype)
+        self._items[name] = ds
+        return ds
+
+    def _walk(self, path):
+        node = self
+        for part in [p for p in path.split("/") if p]:
+            node = node._items[part]
+        return node
+
+    def __getitem__(self, path):
+        return self._walk(path)
+
+    def __contains__(self, path):
+        try:
+            self._walk(path)
+            return True
+        except KeyError:
+            return False
+
+    def keys(self):
+        return self._items.keys()
+
+
+class FakeH5Module:
+    """stands in for the h5py module inside discretisedfield.io.hdf5"""
+
+    Group = H5Group
+    Dataset = H5Dataset
+
+    def __init__(self):
+        self.files = {}
+
+    def File(self, filename, mode="r"):
+        mod = self
+        key = str(filename)
+
+        class _F(H5Group):
+            def __enter__(s):
+                return s
+
+            def __exit__(s, *a):
+                return False
+
+        if mode.startswith("w"):
+            f = _F()
+            mod.files[key] = f
+            return f
+        if key not in mod.files:
+            raise FileNotFoundError(key)
+        return mod.files[key]
+
+
+@contextlib.contextmanager
+def h5_stub(hdf5_module):
+    old = hdf5_module.h5py
+    fake = FakeH5Module()
+    hdf5_module.h5py = fake
+    try:
+        yield fake
+    finally:
+        hdf5_module.h5py = old
